@@ -4,7 +4,10 @@ package main
 // in the goal: a cheap, sound pre-pass that turns most array-property proofs
 // into quantifier-free ones (the quantified originals are kept as well).
 
-import "strings"
+import (
+	"sort"
+	"strings"
+)
 
 // subst replaces atoms by name.
 func subst(t *Term, m map[string]*Term) *Term {
@@ -130,6 +133,12 @@ func collectIndexTermsW(w *World, t *Term, is Sort, bound map[string]bool, out m
 
 // instantiate returns extended assumptions and the (skolemised) goal.
 func instantiate(w *World, assume []*Term, goal *Term) ([]*Term, *Term) {
+	return instantiateMode(w, assume, goal, false)
+}
+
+// instantiateMode: rich=false takes candidate index terms from the goal only (small queries, the
+// common case); rich=true also harvests the assumptions (needed by some array-invariant proofs).
+func instantiateMode(w *World, assume []*Term, goal *Term, rich bool) ([]*Term, *Term) {
 	if goal == nil {
 		return assume, goal
 	}
@@ -161,22 +170,48 @@ func instantiate(w *World, assume []*Term, goal *Term) ([]*Term, *Term) {
 		return out, goal
 	}
 	cands := map[string]*Term{}
+	var candOrder []*Term
 	seen := map[string]bool{}
-	collectIndexTermsW(w, goal, w.IS, nil, cands, 10, seen)
-	for i := len(out) - 1; i >= 0; i-- {
-		if a := out[i]; a.Op != "forall" {
-			collectIndexTermsW(w, a, w.IS, nil, cands, 14, seen)
+	collect := func(t *Term, limit int) {
+		before := map[string]bool{}
+		for k := range cands {
+			before[k] = true
+		}
+		collectIndexTermsW(w, t, w.IS, nil, cands, limit, seen)
+		var added []string
+		for k := range cands {
+			if !before[k] {
+				added = append(added, k)
+			}
+		}
+		sort.Strings(added)
+		for _, k := range added {
+			candOrder = append(candOrder, cands[k])
 		}
 	}
-	for _, a := range out {
-		if a.Op == "forall" {
-			collectIndexTermsW(w, a, w.IS, nil, cands, 18, seen)
+	collect(goal, 10)
+	nGoal := len(candOrder)
+	if rich {
+		for i := len(out) - 1; i >= 0; i-- {
+			if a := out[i]; a.Op != "forall" {
+				collect(a, 14)
+			}
+		}
+		for _, a := range out {
+			if a.Op == "forall" {
+				collect(a, 18)
+			}
+		}
+	} else if len(cands) < 4 {
+		// few index terms in the goal: also look at the most recent ground assumptions
+		for i := len(out) - 1; i >= 0 && len(cands) < 10; i-- {
+			if a := out[i]; a.Op != "forall" {
+				collect(a, 10)
+			}
 		}
 	}
-	var cl []*Term
-	for _, k := range sortedKeys(cands) {
-		cl = append(cl, cands[k])
-	}
+	// candidates in order of discovery (those from the goal first)
+	cl := append([]*Term(nil), candOrder...)
 	n := len(out)
 	for i := 0; i < n; i++ {
 		a := out[i]
@@ -221,14 +256,26 @@ func instantiate(w *World, assume []*Term, goal *Term) ([]*Term, *Term) {
 				}
 			}
 		} else {
+			// pairs: every goal-derived candidate with every candidate, in both positions
 			cnt := 0
-			for _, c1 := range cl {
-				for _, c2 := range cl {
-					if cnt > 80 {
-						break
-					}
-					out = append(out, subst(a.Args[0], map[string]*Term{a.Vars[0].Op: c1, a.Vars[1].Op: c2}))
-					cnt++
+			done := map[string]bool{}
+			pair := func(c1, c2 *Term) {
+				k := c1.String() + "|" + c2.String()
+				if done[k] || cnt > 300 {
+					return
+				}
+				done[k] = true
+				out = append(out, subst(a.Args[0], map[string]*Term{a.Vars[0].Op: c1, a.Vars[1].Op: c2}))
+				cnt++
+			}
+			ng := nGoal
+			if ng == 0 || ng > len(cl) {
+				ng = len(cl)
+			}
+			for _, g := range cl[:ng] {
+				for _, c := range cl {
+					pair(g, c)
+					pair(c, g)
 				}
 			}
 		}
